@@ -210,6 +210,126 @@ impl<'a> Gen<'a> {
     }
 }
 
+
+/// Deterministic boundary family (identical for every seed): overlapping proofs of equal and of
+/// different amounts dropped in both orders, clones, amounts exactly at / one unit beyond every
+/// comparison (total, total - max proof, divisibility unit, zero, negative), overlapping id proofs,
+/// buckets under proofs moved / split / merged / consumed / left over.
+fn boundary_cases() -> Vec<(&'static str, Vec<Op>)> {
+    use Op::*;
+    let t0 = 1000 * UNIT;
+    let t1 = 500 * UNIT;
+    let mut v: Vec<(&'static str, Vec<Op>)> = Vec::new();
+    let tidy = |mut ops: Vec<Op>| {
+        ops.push(DepositBatch);
+        ops
+    };
+    // two proofs of the same amount: dropping one must keep the amount locked
+    for (drops, w) in [(1, 600 * UNIT), (1, 600 * UNIT + 1), (2, t0), (2, t0 + 1), (0, 600 * UNIT), (0, 600 * UNIT + 1)] {
+        let mut ops = vec![AcctProofAmount(0, 400 * UNIT), AcctProofAmount(0, 400 * UNIT), PopAuthZone, PopAuthZone];
+        for d in 0..drops {
+            ops.push(DropProof(d));
+        }
+        ops.push(Withdraw(0, w));
+        v.push(("bnd_same_amount", tidy(ops)));
+    }
+    // different amounts: the locked maximum must be recomputed from the remaining proofs
+    for (first, second) in [(300 * UNIT, 700 * UNIT), (700 * UNIT, 300 * UNIT)] {
+        for drop_big in [true, false] {
+            for over in [0i128, 1] {
+                // after Pop, Pop: proof 0 = second, proof 1 = first
+                let (big_name, small_name) = if second > first { (0u32, 1u32) } else { (1, 0) };
+                let (dropped, remaining) = if drop_big { (big_name, first.min(second)) } else { (small_name, first.max(second)) };
+                let ops = vec![AcctProofAmount(0, first), AcctProofAmount(0, second), PopAuthZone, PopAuthZone, DropProof(dropped), Withdraw(0, t0 - remaining + over)];
+                v.push(("bnd_max_recompute", tidy(ops)));
+            }
+        }
+    }
+    for over in [0i128, 1] {
+        v.push(("bnd_max_recompute", tidy(vec![AcctProofAmount(0, 200 * UNIT), AcctProofAmount(0, 500 * UNIT), AcctProofAmount(0, 500 * UNIT), PopAuthZone, DropProof(0), Withdraw(0, 500 * UNIT + over)])));
+        v.push(("bnd_max_recompute", tidy(vec![AcctProofAmount(0, 200 * UNIT), AcctProofAmount(0, 500 * UNIT), PopAuthZone, DropProof(0), PopAuthZone, DropProof(1), AcctProofAmount(0, 100 * UNIT), Withdraw(0, 900 * UNIT + over)])));
+        // clone, drop the original
+        v.push(("bnd_clone", tidy(vec![AcctProofAmount(0, 400 * UNIT), PopAuthZone, CloneProof(0), DropProof(0), Withdraw(0, 600 * UNIT + over)])));
+        v.push(("bnd_clone", tidy(vec![AcctProofAmount(0, 400 * UNIT), PopAuthZone, CloneProof(0), CloneProof(1), DropProof(0), DropProof(2), DropProof(1), Withdraw(0, t0 + over)])));
+        v.push(("bnd_clone", tidy(vec![AcctProofAmount(0, 400 * UNIT), PopAuthZone, CloneProof(0), PushAuthZone(1), DropProof(0), PopAuthZone, DropProof(2), Recall(0, t0 + over)])));
+        // removals exactly at total - max(proofs)
+        v.push(("bnd_removal", tidy(vec![AcctProofAmount(0, 999 * UNIT), Withdraw(0, UNIT + over)])));
+        v.push(("bnd_removal", vec![AcctProofAmount(0, 999 * UNIT), AcctBurn(0, UNIT + over)]));
+        v.push(("bnd_removal", tidy(vec![AcctProofAmount(0, 999 * UNIT), Recall(0, UNIT + over)])));
+        v.push(("bnd_removal", tidy(vec![AcctProofAmount(0, t0), Withdraw(0, over)])));
+        v.push(("bnd_removal", tidy(vec![Withdraw(0, 400 * UNIT), AcctProofAmount(0, 600 * UNIT + over)])));
+        v.push(("bnd_removal", tidy(vec![AcctProofAmount(1, 499 * UNIT), Withdraw(1, UNIT + over * CENT)])));
+        v.push(("bnd_removal", tidy(vec![AcctProofAmount(1, t1 - CENT), Withdraw(1, CENT + over)])));
+    }
+    // proof amounts: total, total + unit, zero, negative, divisibility
+    for a in [t0, t0 + 1, t0 - 1, 0, -1, 1] {
+        v.push(("bnd_proof_amount", vec![AcctProofAmount(0, a)]));
+    }
+    for a in [t1, t1 + CENT, t1 - CENT, CENT, CENT - 1, CENT + 1, 1, 0, -CENT, 2 * CENT] {
+        v.push(("bnd_proof_amount", vec![AcctProofAmount(1, a)]));
+        v.push(("bnd_proof_amount", tidy(vec![Withdraw(1, a)])));
+    }
+    // non-fungible: overlapping id proofs
+    let nf: Vec<(Vec<Op>, Vec<u64>)> = vec![
+        (vec![AcctProofNF(2, vec![1, 2]), AcctProofNF(2, vec![2, 3])], vec![4]),
+        (vec![AcctProofNF(2, vec![1, 2]), AcctProofNF(2, vec![2, 3])], vec![2]),
+        (vec![AcctProofNF(2, vec![1, 2]), AcctProofNF(2, vec![2, 3])], vec![4, 1]),
+        (vec![AcctProofNF(2, vec![1, 2]), AcctProofNF(2, vec![2, 3]), PopAuthZone, DropProof(0)], vec![3]),
+        (vec![AcctProofNF(2, vec![1, 2]), AcctProofNF(2, vec![2, 3]), PopAuthZone, DropProof(0)], vec![2]),
+        (vec![AcctProofNF(2, vec![1, 2]), AcctProofNF(2, vec![2, 3]), PopAuthZone, PopAuthZone, DropProof(1)], vec![1]),
+        (vec![AcctProofNF(2, vec![1, 2]), AcctProofNF(2, vec![2, 3]), PopAuthZone, PopAuthZone, DropProof(1)], vec![2]),
+        (vec![AcctProofNF(2, vec![1, 2]), AcctProofNF(2, vec![2, 3]), PopAuthZone, PopAuthZone, DropProof(1), DropProof(0)], vec![2, 1, 3]),
+        (vec![AcctProofNF(2, vec![5]), AcctProofNF(2, vec![5]), PopAuthZone, DropProof(0)], vec![5]),
+        (vec![AcctProofNF(2, vec![5]), AcctProofNF(2, vec![5]), PopAuthZone, DropProof(0), PopAuthZone, DropProof(1)], vec![5]),
+        (vec![AcctProofNF(2, vec![5]), PopAuthZone, CloneProof(0), DropProof(0)], vec![5]),
+        (vec![AcctProofNF(2, vec![1, 2, 3, 4, 5, 6, 7, 8])], vec![8]),
+        (vec![AcctProofNF(2, vec![1, 2, 3, 4, 5, 6, 7, 8]), PopAuthZone, DropProof(0)], vec![8, 1]),
+    ];
+    for (pre, ids) in nf {
+        for kind in 0..3 {
+            let mut ops = pre.clone();
+            ops.push(match kind {
+                0 => WithdrawNF(2, ids.clone()),
+                1 => RecallNF(2, ids.clone()),
+                _ => AcctBurnNF(2, ids.clone()),
+            });
+            v.push(("bnd_nf_proofs", tidy(ops)));
+        }
+    }
+    for ids in [vec![], vec![9], vec![1, 9], vec![8]] {
+        v.push(("bnd_nf_proofs", vec![AcctProofNF(2, ids)]));
+    }
+    // buckets under proofs
+    let b0 = vec![Withdraw(0, 10 * UNIT), TakeFromWorktop(0, 10 * UNIT)];
+    let with = |extra: Vec<Op>| {
+        let mut o = b0.clone();
+        o.extend(extra);
+        o
+    };
+    for over in [0i128, 1] {
+        v.push(("bnd_bucket", with(vec![BucketProofAmount(0, 6 * UNIT), ReturnToWorktop(0), TakeFromWorktop(0, 4 * UNIT + over), DropNamedProofs, Deposit(1), DepositBatch])));
+        v.push(("bnd_bucket", with(vec![BucketProofAmount(0, 10 * UNIT + over), DropNamedProofs, Deposit(0)])));
+        v.push(("bnd_bucket", with(vec![BucketProofAll(0), ReturnToWorktop(0), TakeFromWorktop(0, 10 * UNIT + over), DropNamedProofs, Deposit(1)])));
+    }
+    v.push(("bnd_bucket", with(vec![BucketProofAll(0), Deposit(0)])));
+    v.push(("bnd_bucket", with(vec![BucketProofAll(0), BurnBucket(0)])));
+    v.push(("bnd_bucket", with(vec![BucketProofAll(0), ReturnToWorktop(0)])));
+    v.push(("bnd_bucket", with(vec![BucketProofAll(0), ReturnToWorktop(0), DropNamedProofs])));
+    v.push(("bnd_bucket", with(vec![BucketProofAll(0), ReturnToWorktop(0), DropNamedProofs, DepositBatch])));
+    v.push(("bnd_bucket", with(vec![BucketProofAll(0), ReturnToWorktop(0), DepositBatch])));
+    v.push(("bnd_bucket", vec![Withdraw(0, 10 * UNIT), TakeFromWorktop(0, 4 * UNIT), BucketProofAll(0), ReturnToWorktop(0)]));
+    v.push(("bnd_bucket", with(vec![BucketProofAll(0), CloneProof(0), DropProof(0), Deposit(0)])));
+    v.push(("bnd_bucket", with(vec![BucketProofAll(0), CloneProof(0), DropProof(0), DropProof(1), Deposit(0)])));
+    v.push(("bnd_bucket", with(vec![BucketProofAmount(0, 3 * UNIT), BucketProofAmount(0, 3 * UNIT), DropProof(0), Deposit(0)])));
+    v.push(("bnd_bucket", with(vec![BucketProofAmount(0, 3 * UNIT), BucketProofAmount(0, 7 * UNIT), DropProof(1), ReturnToWorktop(0), TakeFromWorktop(0, 7 * UNIT), TakeFromWorktop(0, 1), DropNamedProofs, DepositBatch, Deposit(1)])));
+    v.push(("bnd_bucket", vec![TakeFromWorktop(0, 0), BucketProofAll(0)]));
+    v.push(("bnd_bucket", vec![WithdrawNF(2, vec![1, 2, 3]), TakeAllFromWorktop(2), BucketProofNF(0, vec![2]), ReturnToWorktop(0), TakeNFFromWorktop(2, vec![1, 3]), DropNamedProofs, Deposit(1), DepositBatch]));
+    v.push(("bnd_bucket", vec![WithdrawNF(2, vec![1, 2, 3]), TakeAllFromWorktop(2), BucketProofNF(0, vec![2]), ReturnToWorktop(0), TakeNFFromWorktop(2, vec![2])]));
+    v.push(("bnd_bucket", vec![WithdrawNF(2, vec![1, 2, 3]), TakeAllFromWorktop(2), BucketProofNF(0, vec![2]), ReturnToWorktop(0), TakeFromWorktop(2, 2 * UNIT), TakeFromWorktop(2, UNIT)]));
+    v.push(("bnd_bucket", vec![WithdrawNF(2, vec![1, 2, 3]), TakeAllFromWorktop(2), BucketProofAll(0), BucketProofNF(0, vec![4]), Deposit(0)]));
+    v
+}
+
 fn gen_case(rng: &mut Rng, init_fung: [i128; 2], init_nf: &[u64]) -> Vec<Op> {
     let len = if rng.chance(1, 8) { rng.range(1, 5) } else { rng.range(6, 28) } as usize;
     let tidy = rng.chance(3, 4);
@@ -263,9 +383,19 @@ fn main() {
     let mut sim = Sim::new();
     let (init_fung, init_nf) = (sim.init_fung, sim.init_nf.clone());
     let init_coq = format!("({}, {}, {})", coq_z(init_fung[0]), coq_z(init_fung[1]), coq_ids(&init_nf));
-    for i in 0..args.cases {
+    let bnd = boundary_cases();
+    for i in 0..args.cases.max(bnd.len()) {
         let mut rng = root.fork(i as u64);
-        let ops = gen_case(&mut rng, init_fung, &init_nf);
+        let ops = match bnd.get(i) {
+            Some((class, ops)) => {
+                report.count(class);
+                ops.clone()
+            }
+            None => {
+                report.count("random_cases");
+                gen_case(&mut rng, init_fung, &init_nf)
+            }
+        };
         let res = sim.run_case(&ops);
         let canon = op_json(&ops).join(";");
         // non-trivial: some removal / consumption op executed while a proof was alive on that container
@@ -345,6 +475,13 @@ fn main() {
     report.floor("tx_failure", (args.cases as u64) / 10);
     report.floor("proofs_created", args.cases as u64);
     report.floor("fail_ELocked", (args.cases as u64) / 100);
+    let mut per_class: std::collections::BTreeMap<&str, u64> = Default::default();
+    for (c, _) in &bnd {
+        *per_class.entry(*c).or_insert(0) += 1;
+    }
+    for (c, n) in per_class {
+        report.floor(c, n);
+    }
     cw.write(&args.out, args.shards).unwrap();
     report.write(&args.out).unwrap();
 }
